@@ -48,6 +48,7 @@ type Scenario struct {
 	TracePath string  `json:"trace_path,omitempty"`  // -P <root>/<path>
 	Fsize    int64    `json:"fsize,omitempty"`       // prlimit --fsize (bytes); -1 = none
 	UseFsize bool     `json:"use_fsize,omitempty"`
+	AsLimit  int64    `json:"as_limit,omitempty"`    // prlimit --as (bytes of address space); 0 = none
 	NoHooks  bool     `json:"no_hooks,omitempty"`
 	TimeoutMs int     `json:"timeout_ms,omitempty"`
 	RunAs    uint32   `json:"run_as,omitempty"`  // run the command as this (unprivileged) uid/gid; the tree is chown'ed to it
@@ -319,6 +320,9 @@ func runScenario(bin, workdir string, sc *Scenario) (*RunRec, error) {
 	}
 	if sc.UseFsize {
 		cmdline = append(cmdline, "prlimit", fmt.Sprintf("--fsize=%d", sc.Fsize))
+	}
+	if sc.AsLimit > 0 {
+		cmdline = append(cmdline, "prlimit", fmt.Sprintf("--as=%d", sc.AsLimit))
 	}
 	cmdline = append(cmdline, bin)
 	cmdline = append(cmdline, args...)
